@@ -231,15 +231,32 @@ def coq_make(targets, timeout=3000):
         return sh(["make", "-j%d" % NPROC] + list(targets), timeout, cwd=COQ)
 
 
+def strip_comments(text):
+    """remove (nested) Coq comments, keeping newlines so that line numbers survive"""
+    out, depth, i = [], 0, 0
+    while i < len(text):
+        if text.startswith("(*", i):
+            depth += 1
+            i += 2
+        elif depth and text.startswith("*)", i):
+            depth -= 1
+            i += 2
+        else:
+            if depth == 0 or text[i] == "\n":
+                out.append(text[i])
+            i += 1
+    return "".join(out)
+
+
 def gate():
     """No admits/axioms/kernel switches anywhere in the development."""
     bad = []
     for rel in v_files() + ["_CoqProject"]:
         with open(os.path.join(COQ, rel)) as f:
-            for i, line in enumerate(f, 1):
-                code = re.sub(r"\(\*.*?\*\)", "", line)
-                if FORBIDDEN.search(code):
-                    bad.append("%s:%d: %s" % (rel, i, line.strip()))
+            code = strip_comments(f.read()) if rel.endswith(".v") else f.read()
+        for i, line in enumerate(code.split("\n"), 1):
+            if FORBIDDEN.search(line):
+                bad.append("%s:%d: %s" % (rel, i, line.strip()))
     return bad
 
 
@@ -581,11 +598,13 @@ def run_check(pid, tier, seed, replay=None):
     # 3./4. correspondence and search (run even when the proof is broken: they
     # look for the concrete failing input)
     model_ok = pr["ok"] or not str(pr.get("failed_at", "")).startswith(("Model/", "Base/", "Gen/"))
-    if not pr["ok"] and model_ok and getattr(mod, "MODEL_TARGETS", None):
-        # proofs broke but the executable model may still build: build it for the correspondence
+    if model_ok and getattr(mod, "MODEL_TARGETS", None):
+        # the executable model files the case files import (they may lie outside the cone of the
+        # property file, and must be built even when a proof broke)
         rc, out, _ = coq_make(["-k"] + list(mod.MODEL_TARGETS))
         if rc != 0:
             model_ok = False
+            ctx.broken("model: %s do not build" % ", ".join(mod.MODEL_TARGETS), out[-3000:])
     for stage in ("correspondence", "search"):
         fn = getattr(mod, stage, None)
         if fn is None:
